@@ -79,16 +79,21 @@ func verifID(label string) ID { return verifIDOfLen(label, verifLen(label+".klen
 
 const verifParent RelationshipType = "parent"
 
-func verifHasEdge(d dagWriter, from, to ID) bool {
+const verifOther RelationshipType = "labeled_by"
+
+func verifHasEdgeT(d dagWriter, from ID, t RelationshipType, to ID) bool {
 	ok, err := d.relationshipTable.NewRetrieve().
-		Where(gorp.MatchKeys[string, Relationship](Relationship{From: from, Type: verifParent, To: to}.GorpKey())).
+		Where(gorp.MatchKeys[string, Relationship](Relationship{From: from, Type: t, To: to}.GorpKey())).
 		Exists(context.Background(), d.tx)
 	return err == nil && ok
 }
 
+func verifHasEdge(d dagWriter, from, to ID) bool { return verifHasEdgeT(d, from, verifParent, to) }
+
 // VerifC16Define: DefineRelationship over three distinct resources and an arbitrary acyclic set of existing
 // edges adds the edge exactly when it closes no cycle, reports a cyclic dependency exactly when it would, and
-// never changes anything else. The resource identifiers are symbolic strings (prefixes of one another allowed).
+// never changes anything else. The resource identifiers are symbolic strings (prefixes of one another allowed);
+// existing edges and the new edge are each of one of two relationship types.
 func VerifC16Define() {
 	ctx := context.Background()
 	d, _ := verifWriter()
@@ -98,14 +103,24 @@ func VerifC16Define() {
 		verifAssume(d.DefineResource(ctx, id) == nil)
 	}
 	// existing edges: any subset of the forward edges of the order a < b < c (every DAG on 3 nodes up to renaming)
+	// each edge is of one of two relationship types: a cycle is a cycle whatever the types along it
+	types := [2]RelationshipType{verifParent, verifOther}
 	var adj [3][3]bool
+	var adjT [3][3]int
 	for i := 0; i < 3; i++ {
 		for j := i + 1; j < 3; j++ {
 			if verifBool("edge") {
 				adj[i][j] = true
-				verifAssume(d.relationshipTable.NewCreate().Entry(&Relationship{From: ids[i], Type: verifParent, To: ids[j]}).Exec(ctx, d.tx) == nil)
+				if verifBool("edge-other-type") {
+					adjT[i][j] = 1
+				}
+				verifAssume(d.relationshipTable.NewCreate().Entry(&Relationship{From: ids[i], Type: types[adjT[i][j]], To: ids[j]}).Exec(ctx, d.tx) == nil)
 			}
 		}
+	}
+	nt := 0
+	if verifBool("new-other-type") {
+		nt = 1
 	}
 	fi, ti := verifLen("from", 0, 2), verifLen("to", 0, 2)
 	if verifParam("selfloop", 1) == 0 {
@@ -122,12 +137,12 @@ func VerifC16Define() {
 			}
 		}
 	}
-	err := d.DefineRelationship(ctx, ids[fi], verifParent, ids[ti])
+	err := d.DefineRelationship(ctx, ids[fi], types[nt], ids[ti])
 	verifObserveBool("err", err != nil)
 	switch {
 	case fi == ti:
 		verifAssert("define-self-loop-rejected", err != nil)
-	case adj[fi][ti]:
+	case adj[fi][ti] && adjT[fi][ti] == nt:
 		verifAssert("define-existing-is-noop", err == nil)
 	case reach[ti][fi]:
 		verifAssert("define-cycle-rejected", err != nil && errors.Is(err, graph.ErrCyclicDependency))
@@ -139,8 +154,10 @@ func VerifC16Define() {
 			if i == j {
 				continue
 			}
-			want := adj[i][j] || (err == nil && i == fi && j == ti)
-			verifAssert("define-edges-exact", verifHasEdge(d, ids[i], ids[j]) == want)
+			for t := 0; t < 2; t++ {
+				want := (adj[i][j] && adjT[i][j] == t) || (err == nil && i == fi && j == ti && t == nt)
+				verifAssert("define-edges-exact", verifHasEdgeT(d, ids[i], types[t], ids[j]) == want)
+			}
 		}
 	}
 	verifReach("end")
